@@ -19,6 +19,7 @@ def immUploadsUnderPartName : Bool := false
 def immRenamesAfterVerifiedTransfer : Bool := false
 def immListingIgnoresPartAndHash : Bool := false
 def immPartSuffixOnly : Bool := false
+def immStoreReturnsRenameError : Bool := false
 def transferVerifiesHash : Bool := false
 def mutStoreTransfersUnderLock : Bool := false
 def mutFetchUnpacksUnderLock : Bool := false
@@ -54,6 +55,14 @@ func extractCache(root string) (string, map[string]any, error) {
 		suffixOnly = strings.Contains(s, `finalZip := strings.TrimSuffix(destZip, partFileDescriptor)`) && !strings.Contains(s, "strings.ReplaceAll(destZip")
 		facts["immRename"] = s
 	}
+	// the error Store returns after the transfer is the error of the rename of the package: nothing assigns `err` after it
+	renameErrReturned := false
+	if iRename >= 0 && iRename == len(immStore.Body.List)-2 {
+		s := norm(p.src(immStore.Body.List[iRename]))
+		tail := norm(p.src(immStore.Body.List[iRename+1]))
+		i := strings.Index(s, "err = s.fs.Move(destZip, finalZip)")
+		renameErrReturned = tail == "return" && i >= 0 && !regexp.MustCompile(`\berr\s*(:?=)[^=]`).MatchString(s[i+len("err = s.fs.Move(destZip, finalZip)"):])
+	}
 	ls := norm(p.src(listing.Body))
 	ignores := strings.Contains(ls, `isPartFile := strings.EqualFold(filepath.Ext(file), partFileDescriptor)`) &&
 		strings.Contains(ls, `isHashFile := strings.EqualFold(filepath.Ext(file), hashFileDescriptor)`) &&
@@ -77,6 +86,7 @@ func extractCache(root string) (string, map[string]any, error) {
 	fmt.Fprintf(&b, "/-- Store: TransferFiles, error exit, then (and only then) the rename of the `.part` file (%s) -/\ndef immRenamesAfterVerifiedTransfer : Bool := %s\n", p.pos(immStore), leanBool(renameAfter))
 	fmt.Fprintf(&b, "/-- readers ignore `.part` and `.hash` files (%s) -/\ndef immListingIgnoresPartAndHash : Bool := %s\n", p.pos(listing), leanBool(ignores))
 	fmt.Fprintf(&b, "/-- the final name is obtained by dropping the `.part` SUFFIX only (not every occurrence in the path) -/\ndef immPartSuffixOnly : Bool := %s\n", leanBool(suffixOnly))
+	fmt.Fprintf(&b, "/-- the result of Store after the transfer is the result of the rename of the package (no later assignment to err) -/\ndef immStoreReturnsRenameError : Bool := %s\n", leanBool(renameErrReturned))
 	fmt.Fprintf(&b, "/-- TransferFiles: hash of the source, copy, hash of the copy, removal of the copy on mismatch (%s) -/\ndef transferVerifiesHash : Bool := %s\n", p.pos(transfer), leanBool(verifies))
 	fmt.Fprintf(&b, "/-- mutable Store: lock, transfer, unlock in that order (%s) -/\ndef mutStoreTransfersUnderLock : Bool := %s\n", p.pos(mutStore), leanBool(before(mLock, mTransfer) && before(mTransfer, mUnlock)))
 	fmt.Fprintf(&b, "/-- mutable Fetch: lock, unpack, unlock in that order (%s) -/\ndef mutFetchUnpacksUnderLock : Bool := %s\n", p.pos(mutFetch), leanBool(before(fLock, fUnpack) && before(fUnpack, fUnlock)))
